@@ -229,6 +229,9 @@ func (v *inputFieldDefaultInjectionVisitor) jsonWalker(fieldType int, defaultVal
 				*finalValueReplaced = true
 			}
 		} else {
+			// not a value we descend into (null, scalar, mismatching kind): it still occupies
+			// an index, so keep i in step with the element position
+			i++
 			return
 		}
 		i++
